@@ -104,7 +104,7 @@ def main():
             dst = os.path.join(ROOT, "seeded", sid)
             os.makedirs(dst, exist_ok=True)
             for f in ("patch.diff", "demo.py", "notes.md"):
-                if os.path.exists(os.path.join(d, f)):
+                if os.path.exists(os.path.join(d, f)) and os.path.abspath(d) != os.path.abspath(dst):
                     shutil.copy(os.path.join(d, f), os.path.join(dst, f))
             with open(os.path.join(dst, "meta.json"), "w") as f:
                 json.dump(meta, f, indent=1)
